@@ -353,7 +353,9 @@ impl StreamsState {
             self.data_recvd = self
                 .data_recvd
                 .saturating_add(u64::from(final_offset) - end);
-            self.add_read_credits(u64::from(final_offset) - bytes_read)
+            // A stopped stream was already issued credit for everything received so far
+            let credited = if stopped { end } else { bytes_read };
+            self.add_read_credits(u64::from(final_offset) - credited)
         } else {
             ShouldTransmit(false)
         })
